@@ -175,8 +175,14 @@ func VerifC07Compact() {
 	w.s.FaultAt = fp.at
 	c := zzverif.U64("c")
 	zzverif.Assume(zzverif.And(c > w.base, c <= w.dealt))
+	if zzverif.Param("borders", 0) > 0 {
+		// the engine splits the key space while the compaction runs: borders on index records or
+		// inside one key's versions (any revision), pieces advertised in any order
+		w.setPartitions()
+	}
 	ok, eff := w.compact(c)
 	w.s.FaultAt = nil
+	w.s.Partitions = nil
 	zzverif.Assert(ok, "compaction request accepted")
 	zzverif.Assert(eff == c, "compaction ran at the requested revision")
 	// reads at every revision >= R, and at the latest, are unchanged
